@@ -720,7 +720,21 @@ class Gen:
                 # Morphism over the whole table first, then the morphism under test over a PREFIX of the same slice
                 # (the library must not have touched the caller's slice)
                 reuse = len(seq) >= 2 and rng.random() < 0.5
-                if reuse:
+                forked = len(distinct) >= 4 and rng.random() < 0.3
+                if forked:
+                    # a morphism extended twice: ext := Morphism(Morphism(base…), x); m := Morphism(ext, a); another one,
+                    # Morphism(ext, b), is built afterwards and thrown away (a result must not share what a later call
+                    # may overwrite)
+                    reuse, nest, nnil, nrep = False, 2, 0, 0
+                    idx = list(range(len(distinct)))
+                    base, x, ea, eb = idx[:-3], idx[-3], idx[-2], idx[-1]
+                    go.append("b0 := optics.Morphism[%s, %s](%s)" % (S.name, T.name, ", ".join("e%d" % i for i in base)))
+                    go.append("ext := optics.Morphism[%s, %s](b0, e%d)" % (S.name, T.name, x))
+                    go.append("m := optics.Morphism[%s, %s](ext, e%d)" % (S.name, T.name, ea))
+                    go.append("_ = optics.Morphism[%s, %s](ext, e%d)" % (S.name, T.name, eb))
+                    seq = [[list(base), x], ea]
+                    distinct_used = [distinct[i] for i in base + [x, ea]]
+                elif reuse:
                     kuse = rng.randrange(1, len(seq))
                     go.append("tbl := []optics.Isomorphism[%s, %s]{%s}" % (S.name, T.name, ", ".join(ego(x) for x in seq)))
                     go.append("_ = optics.Morphism[%s, %s](tbl...)" % (S.name, T.name))
